@@ -340,4 +340,34 @@ theorem agop_maxEntry_pos (d : ℕ) (G : List (List ℝ)) (g : List ℝ) (hg : g
   unfold maxEntry
   linarith
 
+/-! ### the model's root on lists is the matrix product -/
+
+theorem zipWith_ofFn' {β γ δ : Type} (f : β → γ → δ) : ∀ {n : ℕ} (a : Fin n → β) (b : Fin n → γ),
+    List.zipWith f (List.ofFn a) (List.ofFn b) = List.ofFn fun i => f (a i) (b i)
+  | 0, _, _ => by simp
+  | n + 1, a, b => by
+    rw [List.ofFn_succ, List.ofFn_succ, List.zipWith_cons_cons, zipWith_ofFn' f (fun i => a i.succ) (fun i => b i.succ),
+      List.ofFn_succ]
+
+theorem getD_ofFn {β : Type} {n : ℕ} (f : Fin n → β) (i : Fin n) (dflt : β) : (List.ofFn f).getD i dflt = f i := by
+  rw [List.getD_eq_getElem?_getD, List.getElem?_ofFn]
+  simp [i.isLt]
+
+open Matrix in
+/-- The model's `U @ diag(S**0.5) @ U.T` on lists is the matrix product, entry by entry (for `s ≥ 0`). -/
+theorem rootFromEig_entry {d : ℕ} (U : Matrix (Fin d) (Fin d) ℝ) (s : Fin d → ℝ) (hs : ∀ k, 0 ≤ s k) (i j : Fin d) :
+    entry (rootFromEig (List.ofFn fun a => List.ofFn (U a)) (List.ofFn s)) i j
+      = (U * Matrix.diagonal (fun k => Real.sqrt (s k)) * Uᵀ) i j := by
+  unfold entry rootFromEig
+  simp only [List.map_ofFn]
+  rw [getD_ofFn]
+  simp only [Function.comp]
+  rw [getD_ofFn, zipWith_ofFn']
+  show vsum (List.zipWith (fun x1 x2 => x1 * x2)
+      (List.ofFn fun k => U i k * sqrt (clamp0 (s k))) (List.ofFn (U j))) = _
+  rw [vsum_zipWith_ofFn, Matrix.mul_apply]
+  refine Finset.sum_congr rfl fun k _ => ?_
+  rw [Matrix.mul_diagonal, Matrix.transpose_apply, sqrt_real, clamp0_of_nonneg _ (hs k)]
+
+
 end Xrfmv.Agop
